@@ -364,6 +364,16 @@ class JavaRenderer:
             e.tok("ex")
             e.tok(")", glue=True)
             self.block(s[3], fn)
+        elif k == "tryres":
+            # try-with-resources: `try (T v = init) { ... }` - the resource is a variable of the try statement only
+            e.tok("try")
+            e.tok("(")
+            e.tok(s[1], glue=True)
+            e.tok(s[2])
+            e.tok("=")
+            self.expr(s[3], True, var_text=s[2])
+            e.tok(")", glue=True)
+            self.block(s[4], fn)
         elif k == "return":
             e.tok("return")
             if s[1] is not None:
@@ -397,8 +407,11 @@ class JavaRenderer:
         if is_iface:
             self.events.append({"e": "interfaceBodyDecl"})
         self.annos(m.get("annos", []), m.get("annos_same_line", False))
+        first_mod = None
         for md in m.get("mods", []):
-            e.tok(md)
+            pos_ = e.tok(md)
+            if first_mod is None:
+                first_mod = pos_
         if m.get("mods_own_line") and m.get("mods"):
             e.nl()
         if m.get("tparams"):
@@ -411,6 +424,9 @@ class JavaRenderer:
             fn["startLine"], fn["retCol"] = sl, sc
             nl_, nc = e.tok(m["name"])
             startcol = sc
+            if is_iface and first_mod is not None and not m.get("annos"):
+                # an interface method's modifiers (`default`, `static`) belong to its declaration: it starts at the first of them
+                fn["startLine"], startcol = first_mod
         else:
             nl_, nc = e.tok(m["name"])
             fn["startLine"] = nl_
